@@ -11,9 +11,13 @@ ACCEPTED_ERRORS = ()
 
 def build(tier, ctx):
     n = 5 if tier == "quick" else 7
+    defs = pvcommon.scope_defs(ctx["repo"], n)
+    # staged merges are block-structured like F; bunched forks with mixed
+    # OR are outside C02's exactness claim and are not included
+    defs += pvcommon.extended_defs(0, staged=True, bunched=False)
     return [{"name": nm, "defn": dsl.to_list(d), "k": 2,
              "pres": ["canonical"], "mode": "c02"}
-            for nm, d in pvcommon.scope_defs(ctx["repo"], n)]
+            for nm, d in defs]
 
 
 def collect(tier, tasks, results, ctx):
